@@ -112,6 +112,30 @@ def extra(ck, data, rules, docg):
         if "Traceback (most recent call last)" in p.stderr:
             ck.violation("traceback:stdin-fix", "vsg --stdin --fix ends in a traceback: %s" % p.stderr.strip().split("\n")[-1][:200], {"kind": "input", "args": ["--stdin", "--fix"]})
         ck.cov["cli_option_runs"] = len(jobs2) + 1
+        # lexically awkward lines (odd numbers of quotes, quote characters as character literals, lone backslashes,
+        # ticks) as a comment and as a statement: accepted or rejected with a message, never a traceback
+        lex = json.load(open(os.path.join(vlib.VERIF, "harness", "c19_lex.json")))
+        jobs3 = []
+        for i, l in enumerate(lex["comments"]):
+            f = os.path.join(tmp, "x%d.vhd" % i)
+            open(f, "w").write("entity e is\nend entity e;\n-- %s\narchitecture a of e is\nbegin\n  -- %s\n  y <= z; -- %s\nend architecture a;\n" % (l, l, l))
+            jobs3.append((f, ["--fix", "-p", "1"], l))
+        for i, l in enumerate(lex["statements"]):
+            f = os.path.join(tmp, "y%d.vhd" % i)
+            open(f, "w").write("architecture a of e is\nbegin\n  p : process is\n  begin\n    %s\n  end process p;\nend architecture a;\n" % l)
+            jobs3.append((f, ["--fix", "-p", "1"], l))
+        texts3 = {f: (open(f).read(), l) for f, _, l in jobs3}
+        with Pool(vlib.NCPU) as p:
+            res3 = p.map(_cli, [(f, a) for f, a, _ in jobs3])
+        for (f, rc, so, se, hung) in res3:
+            if hung:
+                ck.violation("hang:lexical", "a file with the line %r did not terminate within 600 s" % texts3[f][1], {"kind": "input", "text": texts3[f][0]})
+            elif "Traceback (most recent call last)" in se:
+                last = [l for l in se.strip().split("\n") if l.strip()][-1]
+                site = [l.strip() for l in se.split("\n") if l.strip().startswith("File ")][-1:]
+                where = (site[0].split(",")[0].split("/")[-1].rstrip('"') + ":" + site[0].split("line ")[1].split(",")[0]) if site else "?"
+                ck.violation("traceback:lexical:%s:%s" % (last.split(":")[0], where), "vsg --fix on a file with the line %r ends in a traceback: %s" % (texts3[f][1], last[:200]), {"kind": "input", "text": texts3[f][0]})
+        ck.cov["lexically_awkward_files"] = len(jobs3)
     finally:
         shutil.rmtree(tmp, ignore_errors=True)
 
